@@ -22,12 +22,12 @@ func TestVerifC12(t *testing.T) {
 		return
 	}
 	rng := hk.NewRNG(hk.Seed(), "c12")
-	hostilePrelude(hk.NewRNG(hk.Seed(), "prelude"))
+	zvHostilePrelude(hk.NewRNG(hk.Seed(), "prelude"))
 
 	// ---- GenerateKey on streams whose leading candidates are out of range
-	bad := [][]byte{make([]byte, 32), ref.B32(nm1), ref.B32(nI), ref.B32(new(big.Int).Add(nI, bi(1))), ref.B32(new(big.Int).Sub(b256, bi(1)))}
+	bad := [][]byte{make([]byte, 32), ref.B32(zvNm1), ref.B32(zvNI), ref.B32(new(big.Int).Add(zvNI, zvBi(1))), ref.B32(new(big.Int).Sub(zvB256, zvBi(1)))}
 	badName := []string{"0", "n-1", "n", "n+1", "2^256-1"}
-	goodEdge := [][]byte{ref.B32(bi(1)), ref.B32(bi(2)), ref.B32(nm2), ref.B32(nm3)}
+	goodEdge := [][]byte{ref.B32(zvBi(1)), ref.B32(zvBi(2)), ref.B32(zvNm2), ref.B32(zvNm3)}
 	type gcase struct {
 		stream []byte
 		chunk  int
@@ -58,7 +58,7 @@ func TestVerifC12(t *testing.T) {
 			st = append(st, goodEdge[si%len(goodEdge)]...)
 			plan += "edge"
 		} else {
-			st = append(st, ref.B32(randScalar(rng))...)
+			st = append(st, ref.B32(zvRandScalar(rng))...)
 			plan += "rand"
 		}
 		st = append(st, rng.Bytes(64)...)
@@ -74,7 +74,7 @@ func TestVerifC12(t *testing.T) {
 		for b := 0; b < i%3; b++ {
 			st = append(st, bad[(i+b)%5]...)
 		}
-		st = append(st, ref.B32(randScalar(rng))...)
+		st = append(st, ref.B32(zvRandScalar(rng))...)
 		gcs = append(gcs, gcase{st, chunks[i%len(chunks)], "eof-with-last-bytes"})
 	}
 	// finite streams that END before an acceptable candidate is complete: every length 0..31 after 0..2 rejected ones
@@ -84,7 +84,7 @@ func TestVerifC12(t *testing.T) {
 			for b := 0; b < nbad; b++ {
 				st = append(st, bad[(l+b)%5]...)
 			}
-			tail := ref.B32(randScalar(rng))
+			tail := ref.B32(zvRandScalar(rng))
 			if l%2 == 0 {
 				tail = append([]byte{0, 0}, rng.Bytes(30)...) // small in any case, whatever follows
 			}
@@ -97,9 +97,9 @@ func TestVerifC12(t *testing.T) {
 		nrej := 1<<20 + 3
 		st := bytes.Repeat([]byte{0xff}, 32*nrej)
 		for i := 0; i < nrej; i += 5 {
-			copy(st[32*i:], ref.B32(nm1)) // n-1 mixed in
+			copy(st[32*i:], ref.B32(zvNm1)) // n-1 mixed in
 		}
-		st = append(append(st, ref.B32(randScalar(rng))...), rng.Bytes(32)...)
+		st = append(append(st, ref.B32(zvRandScalar(rng))...), rng.Bytes(32)...)
 		gcs = append(gcs, gcase{st, 0, "long-rejection-run"})
 	}
 	r.Sample(hk.D{"kind": "GenerateKey", "plan": gcs[7].plan, "stream": hk.Hex(gcs[7].stream)})
@@ -110,7 +110,7 @@ func TestVerifC12(t *testing.T) {
 			// the stream ends before an acceptable 32-byte candidate is complete: there is no key "of this stream";
 			// whatever comes back must not be a key (C19 enumerates the failure positions and kinds, here it is the
 			// plain end of a finite stream)
-			rd := newScript(g.stream)
+			rd := zvNewScript(g.stream)
 			rd.chunk = g.chunk
 			var priv, x, y []byte
 			var err error
@@ -118,12 +118,12 @@ func TestVerifC12(t *testing.T) {
 			// (the private buffer that comes back next to the error is not judged: by convention results beside a
 			// non-nil error are unspecified, and C19 speaks of "no public key or signature")
 			if p || err == nil || x != nil || y != nil {
-				r.Violation("generatekey-returns-a-key-from-an-exhausted-stream", hk.D{"stream": hk.Hex(g.stream), "stream_len": len(g.stream), "chunk": g.chunk, "plan": g.plan, "priv": hexOrNil(priv), "x": hexOrNil(x), "err": errStr(err), "panic": msg})
+				r.Violation("generatekey-returns-a-key-from-an-exhausted-stream", hk.D{"stream": hk.Hex(g.stream), "stream_len": len(g.stream), "chunk": g.chunk, "plan": g.plan, "priv": zvHexOrNil(priv), "x": zvHexOrNil(x), "err": zvErrStr(err), "panic": msg})
 			}
 			r.Eval(fmt.Sprintf("genkey-exhausted:len%%32=%d,chunk=%d", len(g.stream)%32, g.chunk))
 			return
 		}
-		rd := newScript(g.stream)
+		rd := zvNewScript(g.stream)
 		rd.chunk = g.chunk
 		rd.errWithFull = g.plan == "eof-with-last-bytes"
 		var priv, x, y []byte
@@ -133,7 +133,7 @@ func TestVerifC12(t *testing.T) {
 		if len(shown) > 4096 {
 			shown = shown[len(shown)-4096:]
 		}
-		d := hk.D{"stream": hk.Hex(shown), "stream_bytes_consumed_by_model": model.Consumed, "chunk": g.chunk, "plan": g.plan, "priv": hexOrNil(priv), "x": hexOrNil(x), "y": hexOrNil(y), "err": errStr(err),
+		d := hk.D{"stream": hk.Hex(shown), "stream_bytes_consumed_by_model": model.Consumed, "chunk": g.chunk, "plan": g.plan, "priv": zvHexOrNil(priv), "x": zvHexOrNil(x), "y": zvHexOrNil(y), "err": zvErrStr(err),
 			"model_d": hk.Hex(ref.B32(model.D)), "model_x": hk.Hex(ref.B32(model.Pub.X)), "model_y": hk.Hex(ref.B32(model.Pub.Y)), "consumed": rd.off, "model_consumed": model.Consumed}
 		cls := "plan=" + g.plan
 		switch {
@@ -158,29 +158,29 @@ func TestVerifC12(t *testing.T) {
 	//      unbounded in the statement; an implementation whose redraw costs stack or memory per candidate dies here
 	{
 		nrej := int64(hk.N(1<<24, 1<<26))
-		dd := randScalar(rng)
-		zr := &zeroRunReader{zeros: 32 * nrej, tail: append(ref.B32(dd), rng.Bytes(32)...)}
+		dd := zvRandScalar(rng)
+		zr := &zvZeroRunReader{zeros: 32 * nrej, tail: append(ref.B32(dd), rng.Bytes(32)...)}
 		r.Journal("GenerateKey after %d rejected candidates (all zero)", nrej)
 		priv, x, y, err := GenerateKey(zr)
-		P := refPub(dd)
+		P := zvRefPub(dd)
 		if err != nil || !bytes.Equal(priv, ref.B32(dd)) || !bytes.Equal(x, ref.B32(P.X)) || !bytes.Equal(y, ref.B32(P.Y)) || zr.read != 32*nrej+32 {
-			r.Violation("generatekey-wrong-after-very-long-rejection-run", hk.D{"rejected_candidates": nrej, "err": errStr(err), "priv": hexOrNil(priv), "want": hk.Hex(ref.B32(dd)), "bytes_read": zr.read})
+			r.Violation("generatekey-wrong-after-very-long-rejection-run", hk.D{"rejected_candidates": nrej, "err": zvErrStr(err), "priv": zvHexOrNil(priv), "want": hk.Hex(ref.B32(dd)), "bytes_read": zr.read})
 		}
 		r.Eval("genkey:rejection-run=2^24+")
 	}
 
 	// ---- TestPrivateKey: 32-byte strings accepted iff value in [1,n-2]
 	var vals []*big.Int
-	for _, c := range []*big.Int{bi(0), nI, b256, new(big.Int).Lsh(bi(1), 255), new(big.Int).Lsh(bi(1), 128), new(big.Int).Rsh(nI, 1)} {
+	for _, c := range []*big.Int{zvBi(0), zvNI, zvB256, new(big.Int).Lsh(zvBi(1), 255), new(big.Int).Lsh(zvBi(1), 128), new(big.Int).Rsh(zvNI, 1)} {
 		for dlt := int64(-3); dlt <= 3; dlt++ {
-			v := new(big.Int).Add(c, bi(dlt))
-			if v.Sign() >= 0 && v.Cmp(b256) < 0 {
+			v := new(big.Int).Add(c, zvBi(dlt))
+			if v.Sign() >= 0 && v.Cmp(zvB256) < 0 {
 				vals = append(vals, v)
 			}
 		}
 	}
 	// values that differ from n-1 in exactly one byte (exercises the byte-wise comparison)
-	nb := ref.B32(nm1)
+	nb := ref.B32(zvNm1)
 	for i := 0; i < 32; i++ {
 		for _, dl := range []int{-1, 1} {
 			b := append([]byte{}, nb...)
@@ -214,13 +214,13 @@ func TestVerifC12(t *testing.T) {
 			if want {
 				cls = "testprivatekey-rejects-valid"
 			}
-			r.Violation(cls+":"+boundaryName(v), hk.D{"priv": hk.Hex(b), "got": got})
+			r.Violation(cls+":"+zvBoundaryName(v), hk.D{"priv": hk.Hex(b), "got": got})
 		}
-		r.Eval("testpriv:" + boundaryName(v))
+		r.Eval("testpriv:" + zvBoundaryName(v))
 	}
 	// lengths: longer than 32 must be rejected
 	for l := 33; l <= 40; l++ {
-		b := append(make([]byte, l-32), ref.B32(bi(7))...)
+		b := append(make([]byte, l-32), ref.B32(zvBi(7))...)
 		if TestPrivateKey(b) == 0 {
 			r.Violation("testprivatekey-accepts-long-encoding", hk.D{"priv": hk.Hex(b)})
 		}
@@ -236,17 +236,17 @@ func TestVerifC12(t *testing.T) {
 			d, x   []byte
 		}
 		var sts []st
-		for _, first := range [][]byte{nil, ref.B32(nm1), make([]byte, 32), ref.B32(nI)} {
-			stream := append(append(append([]byte{}, first...), ref.B32(randScalar(rng))...), rng.Bytes(32)...)
+		for _, first := range [][]byte{nil, ref.B32(zvNm1), make([]byte, 32), ref.B32(zvNI)} {
+			stream := append(append(append([]byte{}, first...), ref.B32(zvRandScalar(rng))...), rng.Bytes(32)...)
 			m := ref.SM2KeyGen(stream)
 			sts = append(sts, st{stream, ref.B32(m.D), ref.B32(m.Pub.X)})
 		}
 		hk.AtStackDepths(hk.N(700, 2000), 96<<10, 8, func(depth int) {
 			s0 := sts[depth%len(sts)]
-			src := &stackHungryReader{inner: newScript(s0.stream), hungry: depth%3 == 0}
+			src := &zvStackHungryReader{inner: zvNewScript(s0.stream), hungry: depth%3 == 0}
 			priv, x, _, err := GenerateKey(src)
 			if err != nil || !bytes.Equal(priv, s0.d) || !bytes.Equal(x, s0.x) {
-				r.Violation("generatekey-wrong-when-the-stack-grows-inside-the-call", hk.D{"stack_depth_frames": depth, "stream": hk.Hex(s0.stream), "priv": hexOrNil(priv), "model_d": hk.Hex(s0.d), "err": errStr(err), "source_uses_stack": depth%3 == 0})
+				r.Violation("generatekey-wrong-when-the-stack-grows-inside-the-call", hk.D{"stack_depth_frames": depth, "stream": hk.Hex(s0.stream), "priv": zvHexOrNil(priv), "model_d": hk.Hex(s0.d), "err": zvErrStr(err), "source_uses_stack": depth%3 == 0})
 			}
 		})
 		r.EvalN("genkey:stack-depth-sweep", hk.N(700, 2000))
@@ -256,11 +256,11 @@ func TestVerifC12(t *testing.T) {
 			s0 := sts[i%len(sts)]
 			var priv, x []byte
 			var err error
-			h := newHandoffReader(newScript(s0.stream), []int{16, 8, 31, 1}[i%4])
-			afterLargeStack([]int{150, 400, 1200, 60}[(i/4)%4], func() { priv, x, _, err = GenerateKey(h) })
+			h := zvNewHandoffReader(zvNewScript(s0.stream), []int{16, 8, 31, 1}[i%4])
+			zvAfterLargeStack([]int{150, 400, 1200, 60}[(i/4)%4], func() { priv, x, _, err = GenerateKey(h) })
 			h.Close()
 			if err != nil || !bytes.Equal(priv, s0.d) || !bytes.Equal(x, s0.x) {
-				r.Violation("generatekey-wrong:source-fills-the-buffer-from-another-goroutine", hk.D{"stream": hk.Hex(s0.stream), "priv": hexOrNil(priv), "model_d": hk.Hex(s0.d), "err": errStr(err)})
+				r.Violation("generatekey-wrong:source-fills-the-buffer-from-another-goroutine", hk.D{"stream": hk.Hex(s0.stream), "priv": zvHexOrNil(priv), "model_d": hk.Hex(s0.d), "err": zvErrStr(err)})
 			}
 			r.Eval("genkey:source:worker-goroutine-fills-the-buffer")
 		}
@@ -269,7 +269,7 @@ func TestVerifC12(t *testing.T) {
 	// ---- values from the LIMB GRID around n - 1 (each limb 0, limb - 1, limb, limb + 1, all ones): the private-key test,
 	//      derivation and key generation must draw the line exactly at n - 2
 	{
-		grid := ref.LimbGrid(nm1)
+		grid := ref.LimbGrid(zvNm1)
 		hk.Parallel(len(grid), func(i int) {
 			v := grid[i]
 			b := ref.B32(v)
@@ -281,11 +281,11 @@ func TestVerifC12(t *testing.T) {
 				r.Violation("testprivatekey-wrong:limb-grid-around-n-1", hk.D{"priv": hk.Hex(b), "got": got, "want": want})
 			}
 			if i%3 == int(hk.Seed()%3) || hk.Thorough() {
-				stream := append(append([]byte{}, b...), ref.B32(bi(7))...)
+				stream := append(append([]byte{}, b...), ref.B32(zvBi(7))...)
 				model := ref.SM2KeyGen(stream)
-				priv, x, _, err := GenerateKey(newScript(stream))
+				priv, x, _, err := GenerateKey(zvNewScript(stream))
 				if err != nil || !bytes.Equal(priv, ref.B32(model.D)) || !bytes.Equal(x, ref.B32(model.Pub.X)) {
-					r.Violation("generatekey-wrong:first-candidate-from-limb-grid-around-n-1", hk.D{"candidate": hk.Hex(b), "priv": hexOrNil(priv), "model_d": hk.Hex(ref.B32(model.D)), "err": errStr(err)})
+					r.Violation("generatekey-wrong:first-candidate-from-limb-grid-around-n-1", hk.D{"candidate": hk.Hex(b), "priv": zvHexOrNil(priv), "model_d": hk.Hex(ref.B32(model.D)), "err": zvErrStr(err)})
 				}
 			}
 			r.Eval("limb-grid-around-n-1")
@@ -295,7 +295,7 @@ func TestVerifC12(t *testing.T) {
 	// ---- DerivePublic: [d]G or an error, never a panic, never a wrong point
 	var dvals []*big.Int
 	dvals = append(dvals, vals[:60]...)
-	dvals = append(dvals, ref.LimbGrid(nI)[:625:625]...)
+	dvals = append(dvals, ref.LimbGrid(zvNI)[:625:625]...)
 	for i := 0; i < hk.N(300, 5000); i++ {
 		dvals = append(dvals, new(big.Int).SetBytes(rng.Bytes(32)))
 	}
@@ -306,8 +306,8 @@ func TestVerifC12(t *testing.T) {
 		var err error
 		p, msg, _, _ := hk.Try(func() { x, y, err = DerivePublic(b) })
 		want := ref.BaseMulFast(v)
-		d := hk.D{"priv": hk.Hex(b), "x": hexOrNil(x), "y": hexOrNil(y), "err": errStr(err)}
-		name := boundaryName(v)
+		d := hk.D{"priv": hk.Hex(b), "x": zvHexOrNil(x), "y": zvHexOrNil(y), "err": zvErrStr(err)}
+		name := zvBoundaryName(v)
 		switch {
 		case p:
 			d["panic"] = msg
@@ -331,14 +331,14 @@ func TestVerifC12(t *testing.T) {
 		var pb [32]byte
 		type kept struct{ x, y, wx, wy []byte }
 		var outs []kept
-		ks := []*big.Int{randScalar(rng), randScalar(rng), randScalar(rng), bi(1), new(big.Int).Set(nm2)}
+		ks := []*big.Int{zvRandScalar(rng), zvRandScalar(rng), zvRandScalar(rng), zvBi(1), new(big.Int).Set(zvNm2)}
 		for step := 0; step < hk.N(60, 600); step++ {
 			v := ks[rng.Intn(len(ks))]
 			copy(pb[:], ref.B32(v))
 			x, y, err := DerivePublic(pb[:])
 			want := ref.BaseMulFast(v)
 			if err != nil || !bytes.Equal(x, ref.B32(want.X)) || !bytes.Equal(y, ref.B32(want.Y)) {
-				r.Violation("derivepublic-wrong-point:caller-reuses-its-key-buffer", hk.D{"priv": hk.Hex(pb[:]), "x": hexOrNil(x), "y": hexOrNil(y), "want_x": hk.Hex(ref.B32(want.X)), "err": errStr(err), "step": step})
+				r.Violation("derivepublic-wrong-point:caller-reuses-its-key-buffer", hk.D{"priv": hk.Hex(pb[:]), "x": zvHexOrNil(x), "y": zvHexOrNil(y), "want_x": hk.Hex(ref.B32(want.X)), "err": zvErrStr(err), "step": step})
 				break
 			}
 			if tp := TestPrivateKey(pb[:]); tp != 0 {
@@ -368,7 +368,7 @@ func TestVerifC12(t *testing.T) {
 			// a result is only acceptable if it is the right point for the value
 			want := ref.BaseMulFast(new(big.Int).SetBytes(b))
 			if want.Inf || !bytes.Equal(x, ref.B32(want.X)) || !bytes.Equal(y, ref.B32(want.Y)) {
-				r.Violation("derivepublic-wrong-point:wrong-length", hk.D{"priv": hk.Hex(b), "x": hexOrNil(x), "y": hexOrNil(y)})
+				r.Violation("derivepublic-wrong-point:wrong-length", hk.D{"priv": hk.Hex(b), "x": zvHexOrNil(x), "y": zvHexOrNil(y)})
 			}
 		}
 		r.Eval(fmt.Sprintf("derive:len=%d", l))
@@ -381,12 +381,12 @@ func TestVerifC12(t *testing.T) {
 	}
 	var ccs []cc
 	for i := 0; i < hk.N(200, 3000); i++ {
-		P := ref.BaseMulFast(randScalar(rng))
+		P := ref.BaseMulFast(zvRandScalar(rng))
 		x, y := ref.B32(P.X), ref.B32(P.Y)
 		ccs = append(ccs, cc{x, y, "on-curve"})
 		ccs = append(ccs, cc{x, ref.B32(P.Neg().Y), "on-curve-neg"})
-		ccs = append(ccs, cc{flip(x, rng.Intn(256)), y, "bitflip-x"})
-		ccs = append(ccs, cc{x, flip(y, rng.Intn(256)), "bitflip-y"})
+		ccs = append(ccs, cc{zvFlip(x, rng.Intn(256)), y, "bitflip-x"})
+		ccs = append(ccs, cc{x, zvFlip(y, rng.Intn(256)), "bitflip-y"})
 		ccs = append(ccs, cc{y, x, "swapped"})
 		ccs = append(ccs, cc{rng.Bytes(32), rng.Bytes(32), "random"})
 		if i < 45 {
@@ -411,9 +411,9 @@ func TestVerifC12(t *testing.T) {
 	z := make([]byte, 32)
 	ccs = append(ccs, cc{z, z, "(0,0)"}, cc{ref.B32(ref.SM2Gx), ref.B32(ref.SM2Gy), "G"}, cc{nil, nil, "nil"},
 		cc{ref.B32(ref.SM2P), ref.B32(ref.SM2Gy), "x=p"}, cc{ref.B32(ref.SM2Gx), ref.B32(ref.SM2P), "y=p"})
-	lim := new(big.Int).Sub(b256, ref.SM2P)
+	lim := new(big.Int).Sub(zvB256, ref.SM2P)
 	for x := int64(0); x < 60; x++ {
-		P, ok := ref.LiftX(bi(x))
+		P, ok := ref.LiftX(zvBi(x))
 		if !ok {
 			continue
 		}
@@ -425,7 +425,7 @@ func TestVerifC12(t *testing.T) {
 	}
 	// x0 + p for on-curve x0 anywhere in [0, 2^256 - p): the encoding's top word is FFFFFFFE or FFFFFFFF
 	{
-		span := new(big.Int).Sub(b256, ref.SM2P)
+		span := new(big.Int).Sub(zvB256, ref.SM2P)
 		found := 0
 		for tries := 0; found < hk.N(40, 400) && tries < 20000; tries++ {
 			x0 := new(big.Int).SetBytes(rng.Bytes(29))
@@ -435,9 +435,9 @@ func TestVerifC12(t *testing.T) {
 			case 2:
 				x0 = new(big.Int).Sub(span, new(big.Int).SetBytes(rng.Bytes(3)))
 			case 3:
-				x0 = new(big.Int).Add(new(big.Int).Lsh(bi(1), 96), new(big.Int).SetBytes(rng.Bytes(6)))
+				x0 = new(big.Int).Add(new(big.Int).Lsh(zvBi(1), 96), new(big.Int).SetBytes(rng.Bytes(6)))
 			case 4:
-				x0 = new(big.Int).Add(new(big.Int).Lsh(bi(1), uint(64+rng.Intn(160))), new(big.Int).SetBytes(rng.Bytes(4)))
+				x0 = new(big.Int).Add(new(big.Int).Lsh(zvBi(1), uint(64+rng.Intn(160))), new(big.Int).SetBytes(rng.Bytes(4)))
 			}
 			if x0.Sign() < 0 || x0.Cmp(span) >= 0 {
 				continue
@@ -458,7 +458,7 @@ func TestVerifC12(t *testing.T) {
 	} else {
 		for i, P := range sps {
 			ccs = append(ccs, cc{ref.B32(P.X), ref.B32(P.Y), "coordinate-class:" + scls[i]})
-			ccs = append(ccs, cc{ref.B32(P.X), flip(ref.B32(P.Y), 255), "coordinate-class-off-curve:" + scls[i]})
+			ccs = append(ccs, cc{ref.B32(P.X), zvFlip(ref.B32(P.Y), 255), "coordinate-class-off-curve:" + scls[i]})
 		}
 	}
 	// non-canonical encodings with a sparse distance from the bound, and valid coordinates split at the wrong place
@@ -470,7 +470,7 @@ func TestVerifC12(t *testing.T) {
 		r.Inconclusive("alias construction: " + aerr.Error())
 	}
 	for i := 0; i < hk.N(3, 12); i++ {
-		P := ref.BaseMulFast(randScalar(rng))
+		P := ref.BaseMulFast(zvRandScalar(rng))
 		xy := append(ref.B32(P.X), ref.B32(P.Y)...)
 		for _, cut := range []int{0, 1, 16, 31, 33, 40, 63, 64} {
 			ccs = append(ccs, cc{xy[:cut], xy[cut:], "lengths-compensate"})
@@ -485,27 +485,27 @@ func TestVerifC12(t *testing.T) {
 		var got bool
 		p, msg, _, _ := hk.Try(func() { got = CheckOnCurve(c.x, c.y) })
 		if p {
-			r.Violation("checkoncurve-panics:"+c.label, hk.D{"x": hexOrNil(c.x), "y": hexOrNil(c.y), "panic": msg})
+			r.Violation("checkoncurve-panics:"+c.label, hk.D{"x": zvHexOrNil(c.x), "y": zvHexOrNil(c.y), "panic": msg})
 		} else if got != want {
-			r.Violation("checkoncurve-wrong:"+c.label, hk.D{"x": hexOrNil(c.x), "y": hexOrNil(c.y), "got": got, "want": want})
+			r.Violation("checkoncurve-wrong:"+c.label, hk.D{"x": zvHexOrNil(c.x), "y": zvHexOrNil(c.y), "got": got, "want": want})
 		}
 		r.Eval(fmt.Sprintf("oncurve:%s=%v", c.label, want))
 	}
 }
 
-func boundaryName(v *big.Int) string {
+func zvBoundaryName(v *big.Int) string {
 	type nb struct {
 		name string
 		c    *big.Int
 	}
-	for _, b := range []nb{{"0", bi(0)}, {"n", nI}, {"2^256", b256}} {
+	for _, b := range []nb{{"0", zvBi(0)}, {"n", zvNI}, {"2^256", zvB256}} {
 		d := new(big.Int).Sub(v, b.c)
 		if d.IsInt64() && d.Int64() >= -3 && d.Int64() <= 3 {
 			return fmt.Sprintf("%s%+d", b.name, d.Int64())
 		}
 	}
-	if v.Cmp(nI) >= 0 {
+	if v.Cmp(zvNI) >= 0 {
 		return "above-n"
 	}
-	return fmt.Sprintf("in-range:lz=%d", lzClass(v))
+	return fmt.Sprintf("in-range:lz=%d", zvLzClass(v))
 }
